@@ -163,6 +163,7 @@ def run(ctx):
     rule_bits(ctx, F)
     rule_tailcall(ctx, F)
     rule_symok(ctx, F)
+    rule_eofguard(ctx, F)
 
 
 # ---------------------------------------------------------------------------
@@ -731,3 +732,37 @@ def rule_symok(ctx, F):
                    "escape sequence, so `Zm9v\\9YmFy` yields the data in front of the bad escape (`foo`) and drops the rest -- the "
                    "zone-file scanner rejects the same text" % p.split("::")[-1], b.where(bb))
     ctx.call_sites += n
+
+
+def rule_eofguard(ctx, F):
+    """The Base64 decoders mark 'padding seen, nothing may follow' by setting `next` to a value far beyond the group buffer
+    (0xF0).  Every store `buf[self.next] = ..` must therefore be behind the test for that marker -- in every arm, the padding
+    arm included: a surplus `=` must be an error, not an index out of bounds."""
+    R = "C18.state"
+    eof = F.consts.get("utils::base64::EOF_MARKER", {}).get("value")
+    if eof is None:
+        return
+    for path in ("utils::base64::Decoder::<Builder>::push", "utils::base64::SymbolConverter::process_char"):
+        b = _machine(F, path)
+        if not ctx.anchor(R, path.split("::")[-2] + "::" + path.split("::")[-1], b):
+            continue
+        k = 0
+        for bi in sorted(b.reachable_blocks()):
+            tm = b.blocks[bi]["t"]
+            if tm["k"] != "assert" or not tm.get("msg") or tm["msg"][0] != "bounds":
+                continue
+            it = deep_strip(b.term_of_operand(tm["msg"][2]))
+            if not (it[0] == "field" and it[2] == "next"):
+                continue
+            k += 1
+            ok = False
+            for tt, vv in bool_facts(b, bi, F):
+                tt = deep_strip(tt)
+                if tt[0] == "bin" and tt[1] in ("Eq", "Ne") and const_value(deep_strip(tt[3])) == eof:
+                    lhs = deep_strip(tt[2])
+                    if lhs[0] == "field" and lhs[2] == "next" and ((tt[1] == "Eq" and vv is False) or (tt[1] == "Ne" and vv is True)):
+                        ok = True
+            ctx.ob(R, b, "buffer store #%d indexed by `next` is behind the end-of-data test" % k, ok,
+                   "%s stores a symbol at buf[self.next] on a path on which `next` may be the end-of-data marker (0x%X): one "
+                   "surplus `=` after a complete padded group indexes the 4-octet buffer at 240 -- a panic instead of "
+                   "'trailing data'" % (path.split("::")[-2] + "::" + path.split("::")[-1], eof), b.where(bi))
